@@ -60,6 +60,7 @@ struct C11World {
     for (auto &c : changes[(size_t)ri]) if (c.first >= t) n += c.second;
     return n;
   }
+  bool big = false;                        // representations need three Block2 blocks
   std::map<Bytes, bool> client_reject;     // client token -> response handler returns FAIL (RST)
   std::map<const coap_session_t *, simk::Addr> sess_addr;
   std::map<const void *, ObsKey> sub_key;            // libcoap subscription -> (peer, token)
@@ -73,7 +74,7 @@ bool serial_gt(uint32_t a, uint32_t b) {   // RFC 7641 3.4 / RFC 1982 on 24 bits
   return (a > b && a - b < (1u << 23)) || (a < b && b - a > (1u << 23));
 }
 
-void hnd(coap_resource_t *resource, coap_session_t *session, const coap_pdu_t *request, const coap_string_t *, coap_pdu_t *response) {
+void hnd(coap_resource_t *resource, coap_session_t *session, const coap_pdu_t *request, const coap_string_t *query, coap_pdu_t *response) {
   int ri = (int)(intptr_t)coap_resource_get_userdata(resource);
   coap_opt_iterator_t oi;
   coap_opt_t *o = coap_check_option(request, COAP_OPTION_OBSERVE, &oi);
@@ -93,6 +94,16 @@ void hnd(coap_resource_t *resource, coap_session_t *session, const coap_pdu_t *r
   }
   coap_pdu_set_code(response, COAP_RESPONSE_CODE_CONTENT);
   uint8_t body[4] = {'S', (uint8_t)ri, (uint8_t)(g->state[(size_t)ri] >> 8), (uint8_t)g->state[(size_t)ri]};
+  if (g->big) {
+    uint8_t *big = (uint8_t *)malloc(80);
+    memset(big, 0x2e, 80);
+    memcpy(big, body, 4);
+    g->w.count("probe.block2_notification_bodies");
+    if (!coap_add_data_large_response(resource, session, request, response, query, COAP_MEDIATYPE_APPLICATION_OCTET_STREAM, -1, 0, 80, big,
+                                      [](coap_session_t *, void *p) { free(p); }, big))
+      coap_pdu_set_code(response, COAP_RESPONSE_CODE_INTERNAL_ERROR);
+    return;
+  }
   coap_add_data(response, 4, body);
 }
 
@@ -175,7 +186,9 @@ struct C11 : Property {
     int nres = (int)r.range(1, 3), ncl = (int)r.range(1, 3);
     json resj = json::array();
     for (int i = 0; i < nres; i++) resj.push_back({{"con", r.chance(0.35)}});
-    p["config"] = {{"resources", resj}, {"clients", ncl}};
+    // "notifications larger than one block": the representation is 80 bytes served through coap_add_data_large_response() with a
+    // 32-byte maximum block size; the observer fetches blocks 1.. of every notification with follow-up requests
+    p["config"] = {{"resources", resj}, {"clients", ncl}, {"big", r.chance(0.15)}};
     json ops = json::array();
     int n = (int)r.range(5, 40);
     int64_t t = 0;
@@ -242,6 +255,8 @@ struct C11 : Property {
       World::AsNode as(0);
       coap_register_nack_handler(cw.sctx, server_nack);
       coap_register_event_handler(cw.sctx, server_event);
+      cw.big = cfg.value("big", false);
+      if (cw.big) { coap_context_set_block_mode(cw.sctx, COAP_BLOCK_USE_LIBCOAP); coap_context_set_max_block_size(cw.sctx, 32); }
       coap_persist_track_funcs(cw.sctx, obs_added_cb, obs_deleted_cb, obs_value_cb, dyn_added_cb, res_deleted_cb, 1, nullptr);
       int i = 0;
       for (auto &jr : cfg["resources"]) {
@@ -375,7 +390,7 @@ struct C11 : Property {
       s.last_obs = v;
       s.have_obs = true;
       if (!reg_response) { s.last_notif_obs = v; s.have_notif_obs = true; }
-      if (m.payload.size() == 4) s.last_state_sent = m.payload[2] << 8 | m.payload[3];
+      if (m.payload.size() >= 4 && m.payload[0] == 'S') s.last_state_sent = m.payload[2] << 8 | m.payload[3];   // (first block of a block-wise notification)
       if (reg_response) return;
       s.notif_mids.insert(m.mid);
       s.last_notif_mid = m.mid;
